@@ -85,7 +85,8 @@ def hooks_in_scope(run, f):
             # the scope future is what gets polled (awaited or select branch)
             polled = any(r.scope_bb == scope_bb for r in lc.awaits.values()) or any(br["root"].scope_bb == scope_bb for br in lc.sel_branches)
             run.require(polled, "O14.1", "scoped-future-is-polled:%s" % key, "the scoped future is not the one that is polled", "the scoped future is the one awaited / selected", loc=lc.loc(scope_bb))
-    run.require(n >= 6, "O14.1", "hook-site-floor", "only %d hook call sites found" % n, "%d hook call sites wrapped" % n)
+    missing = [h for h in ("on_start", "handle_message", "on_run", "on_stop") if not lc.hooks[h]]
+    run.require(not missing, "O14.1", "hook-site-floor", "no call site found for %s (%d hook call sites in all)" % (missing, n), "%d hook call sites wrapped, every hook has at least one" % n)
 
 
 def _ty_of(lc, t):
